@@ -228,7 +228,7 @@ def run_case(case):
                 classes.append(ns.get(name) if err is None else None)
                 if err is not None:
                     ns.pop(name, None)
-            elif err is None:
+            elif op["op"] == "func" and err is None:
                 funcs.append(ns[op["name"]])
             out.append({"error": err,
                         "funcs": [view_func(W, f) for f in funcs],
